@@ -134,6 +134,46 @@ let () =
         let f = (match getS fn with "add" -> Z.add | "lin" -> op2 "lin" | t -> failwith ("evalk " ^ t)) in
         { model = show_operand (ufunc2 f x y); spec = show_operand (ufunc2_spec f x y); dom = posb (fst x) && posb (fst y) }
     | _ -> failwith "evalk");
+  (* ascal S:fn S:arrT S:scalT S:pos A I:n — array op scalar of another element type, scalar on either side.  The element type
+     comes from the Dtype table; the values are the C++ scalar operation on the two element VALUES in their own types (usual
+     arithmetic conversions), computed here with exact integers or IEEE doubles (float32 results rounded once: exact for + - * /) *)
+  register "ascal" (fun a -> match a with
+    | [fn; at; st; pos; arr; n] ->
+        let fn = getS fn and at = dtype_of (getS at) and st = dtype_of (getS st) and scal_left = (getS pos = "l") in
+        let (shape, data) = getA arr and n = getI n in
+        let isf d = is_float d in
+        let f32 x = Int32.float_of_bits (Int32.bits_of_float x) in
+        let tof z = float_of_int (int_of_z z) in
+        let kf = if isf st then tof n /. 4.0 else tof n in           (* the scalar as a real number *)
+        let ct = promote_cxx at st in                               (* type the operation is carried out in *)
+        let rt = (match fn with
+          | "power" -> result_dtype None Pow at st | "less" -> Bool | _ -> result_dtype None Arith at st) in
+        let fl x = Printf.sprintf "%.17g" x in
+        let elem xz =
+          let xf = tof xz in
+          let (lf, rf) = if scal_left then (kf, xf) else (xf, kf) in
+          if fn = "power" then fl (Float.pow lf rf)
+          else if fn = "less" then (if lf < rf then "1" else "0")
+          else if fn = "where" then
+            (* where(a, a, k) / where(a, k, a): condition a != 0 *)
+            let v = if xz <> Z0 then (if scal_left then kf else xf) else (if scal_left then xf else kf) in
+            if isf rt then fl (if rt = F32 then f32 v else v) else string_of_z (int_cast rt (z_of_int (int_of_float v)))
+          else if isf ct then begin
+            let r = (match fn with
+              | "add" -> lf +. rf | "subtract" -> lf -. rf | "multiply" -> lf *. rf | "divide" -> lf /. rf
+              | "maximum" -> if lf > rf then lf else rf | "minimum" -> if lf < rf then lf else rf | f -> failwith ("ascal " ^ f)) in
+            fl (if ct = F32 then f32 r else r)
+          end else begin
+            let (lz, rz) = if scal_left then (n, xz) else (xz, n) in
+            let lz = int_cast ct lz and rz = int_cast ct rz in
+            let r = (match fn with
+              | "add" -> Z.add lz rz | "subtract" -> Z.sub lz rz | "multiply" -> Z.mul lz rz | "divide" -> Z.quot lz rz
+              | "maximum" -> Z.max lz rz | "minimum" -> Z.min lz rz | f -> failwith ("ascal " ^ f)) in
+            string_of_z (int_cast ct r)
+          end in
+        let r = "ok " ^ show_list shape ^ " ; " ^ String.concat "," (List.map elem data) ^ " ; view=" ^ dtype_name rt in
+        { model = r; spec = r; dom = false }
+    | _ -> failwith "ascal");
   register "ident" (fun _ -> { model = "ok"; spec = "ok"; dom = false });
   register "dtype" (fun a -> match a with
     | [op; t1; t2] ->
